@@ -1,4 +1,5 @@
-// C16 harness: the real proxy/search.Ingestor against scripted StoreApiClient fakes (ShuffleReplicas=false).
+// C16 harness: the real proxy/search.Ingestor against scripted StoreApiClient fakes (ShuffleReplicas=false, and
+// =true with the replica order chosen by the harness through verifhook.SetShuffle).
 //
 // Channels (implementation vs Lean model through drv_c16, same inputs):
 //   shard   searchShard           : every replica script over {f,w,u,rn,rw,ru,rf} up to 3 replicas
@@ -40,6 +41,7 @@ import (
 	"github.com/ozontech/seq-db/proxy/stores"
 	"github.com/ozontech/seq-db/proxyapi"
 	"github.com/ozontech/seq-db/seq"
+	"github.com/ozontech/seq-db/verifhook"
 
 	"verifharness/internal/vh"
 )
@@ -141,7 +143,11 @@ func fmtTier(t [][]call, order []int) string {
 	}
 	s := make([]string, 0, len(t))
 	for _, i := range order {
-		s = append(s, fmt.Sprintf("%d=%s", i, fmtCalls(t[i])))
+		if _, ok := curShuf[len(t[i])]; ok {
+			s = append(s, fmt.Sprintf("%d~%s=%s", i, strings.ReplaceAll(vh.JoinInts(permFor(len(t[i]))), ",", "."), fmtCalls(t[i])))
+		} else {
+			s = append(s, fmt.Sprintf("%d=%s", i, fmtCalls(t[i])))
+		}
 	}
 	return strings.Join(s, "|")
 }
@@ -167,8 +173,82 @@ func parseTier(s string) ([][]call, error) {
 
 // shardKind is the reference reading of one replica script (used to pick the gated calls and by the oracle):
 // 'o' answered, 'w' 'u' 't' refusals, 'e' all failed, 'z' no replica.
+// curShuf: the replica order of the case at hand when ShuffleReplicas is on (replica count -> order); nil = index order.
+// The harness main loop is sequential; every entry point that looks at a case sets it first (useShuffle).
+var curShuf map[int][]int
+
+func permFor(n int) []int {
+	if p, ok := curShuf[n]; ok && len(p) == n {
+		return p
+	}
+	p := make([]int, n)
+	for i := range p {
+		p[i] = i
+	}
+	return p
+}
+
+// useShuffle makes the reference functions and the real code (through the verif shuffle hook) use the case's order
+func useShuffle(shuf map[int][]int) {
+	curShuf = shuf
+	if len(shuf) == 0 {
+		verifhook.SetShuffle(nil)
+		return
+	}
+	local := shuf
+	verifhook.SetShuffle(func(n int) []int {
+		if p, ok := local[n]; ok && len(p) == n {
+			return append([]int{}, p...)
+		}
+		p := make([]int, n)
+		for i := range p {
+			p[i] = i
+		}
+		return p
+	})
+}
+
+func fmtShuf(m map[int][]int) string {
+	if len(m) == 0 {
+		return "-"
+	}
+	var ks []int
+	for k := range m {
+		ks = append(ks, k)
+	}
+	sort.Ints(ks)
+	var s []string
+	for _, k := range ks {
+		s = append(s, fmt.Sprintf("%d:%s", k, strings.ReplaceAll(vh.JoinInts(m[k]), ",", ".")))
+	}
+	return strings.Join(s, ";")
+}
+
+func parseShuf(s string) map[int][]int {
+	if s == "-" || s == "" {
+		return nil
+	}
+	m := map[int][]int{}
+	for _, x := range strings.Split(s, ";") {
+		kv := strings.SplitN(x, ":", 2)
+		if len(kv) != 2 {
+			continue
+		}
+		n, _ := strconv.Atoi(kv[0])
+		var p []int
+		for _, y := range strings.Split(kv[1], ".") {
+			v, _ := strconv.Atoi(y)
+			p = append(p, v)
+		}
+		m[n] = p
+	}
+	return m
+}
+
+// shardKind reads the replicas in the order they are asked; rep is the index of the replica itself
 func shardKind(cs []call) (kind byte, rep int) {
-	for i, c := range cs {
+	for _, i := range permFor(len(cs)) {
+		c := cs[i]
 		switch {
 		case c.kind == 'f':
 			continue
@@ -571,7 +651,11 @@ func newSR(off, size int, rev, fetch bool) *search.SearchRequest {
 
 // ---------------------------------------------------------------- channel: shard
 
-func runShard(cs []call) string {
+func runShard(cs []call, perm []int) string {
+	if perm != nil {
+		useShuffle(map[int][]int{len(cs): perm})
+		defer useShuffle(nil)
+	}
 	w := newWorld()
 	clients := map[string]storeapi.StoreApiClient{}
 	var hosts []string
@@ -583,7 +667,7 @@ func runShard(cs []call) string {
 	}
 	clients["z9_9"] = &fake{host: "z9_9", w: w} // so that source numbers are not all zero
 	empty := &stores.Stores{}
-	si := search.NewIngestor(search.Config{HotStores: &stores.Stores{Shards: [][]string{hosts}}, HotReadStores: empty, ReadStores: empty, WriteStores: empty}, clients)
+	si := search.NewIngestor(search.Config{HotStores: &stores.Stores{Shards: [][]string{hosts}}, HotReadStores: empty, ReadStores: empty, WriteStores: empty, ShuffleReplicas: perm != nil}, clients)
 	resp, source, err := si.VerifSearchShard(context.Background(), hosts, newSR(0, 10, false, false).GetAPISearchRequest())
 	switch {
 	case err == nil && resp == nil:
@@ -631,6 +715,20 @@ func seqs[T any](alpha []T, maxLen int) [][]T {
 	return res
 }
 
+func allPerms(n int) [][]int {
+	if n == 0 {
+		return [][]int{{}}
+	}
+	var res [][]int
+	for _, p := range allPerms(n - 1) {
+		for pos := 0; pos <= len(p); pos++ {
+			q := append(append(append([]int{}, p[:pos]...), n-1), p[pos:]...)
+			res = append(res, q)
+		}
+	}
+	return res
+}
+
 // ---------------------------------------------------------------- channel: stores
 
 type qprOut struct {
@@ -664,7 +762,7 @@ func runStores(t [][]call, winner int) (string, int) {
 	w.install('h', t, winner)
 	st := &stores.Stores{Shards: tierHosts('h', t)}
 	empty := &stores.Stores{}
-	si := search.NewIngestor(search.Config{HotStores: st, HotReadStores: empty, ReadStores: empty, WriteStores: empty}, clients)
+	si := search.NewIngestor(search.Config{HotStores: st, HotReadStores: empty, ReadStores: empty, WriteStores: empty, ShuffleReplicas: len(curShuf) > 0}, clients)
 	var res string
 	func() {
 		defer func() {
@@ -866,9 +964,13 @@ type tcase struct {
 	fetch     bool
 	wh, wc    int
 	fb        map[string]string // host -> fetch ops
+	shuf      map[int][]int     // ShuffleReplicas=true: replica count -> order in which the replicas are asked
 }
 
 func (c tcase) String() string {
+	saved := curShuf
+	curShuf = nil // the case line carries the order in its own field
+	defer func() { curShuf = saved }()
 	var fb []string
 	for _, h := range vh.SortedKeys(c.fb) {
 		fb = append(fb, h+":"+c.fb[h])
@@ -880,8 +982,8 @@ func (c tcase) String() string {
 		}
 		return r
 	}
-	return fmt.Sprintf("case hot=%s cold=%s hr=%s off=%d size=%d rev=%s hint=%d fetch=%s wh=%d wc=%d fb=%s",
-		fmtTier(c.hot, all(c.hot)), fmtTier(c.cold, all(c.cold)), vh.B(c.hotRead), c.off, c.size, vh.B(c.rev), c.hint, vh.B(c.fetch), c.wh, c.wc, vh.JoinStrs(fb, ";"))
+	return fmt.Sprintf("case hot=%s cold=%s hr=%s off=%d size=%d rev=%s hint=%d fetch=%s wh=%d wc=%d fb=%s shuf=%s",
+		fmtTier(c.hot, all(c.hot)), fmtTier(c.cold, all(c.cold)), vh.B(c.hotRead), c.off, c.size, vh.B(c.rev), c.hint, vh.B(c.fetch), c.wh, c.wc, vh.JoinStrs(fb, ";"), fmtShuf(c.shuf))
 }
 
 func parseCase(line string) (tcase, error) {
@@ -926,6 +1028,8 @@ func parseCase(line string) (tcase, error) {
 					}
 				}
 			}
+		case "shuf":
+			c.shuf = parseShuf(p[1])
 		}
 		if err != nil {
 			return c, err
@@ -973,7 +1077,8 @@ func buildCase(c tcase) (*world, *search.Ingestor, byte) {
 	for h, ops := range c.fb {
 		w.fetchOps[h] = ops
 	}
-	cfg := search.Config{HotStores: &stores.Stores{Shards: tierHosts('h', c.hot)}, HotReadStores: &stores.Stores{}, ReadStores: &stores.Stores{Shards: tierHosts('c', c.cold)}, WriteStores: &stores.Stores{}}
+	useShuffle(c.shuf)
+	cfg := search.Config{HotStores: &stores.Stores{Shards: tierHosts('h', c.hot)}, HotReadStores: &stores.Stores{}, ReadStores: &stores.Stores{Shards: tierHosts('c', c.cold)}, WriteStores: &stores.Stores{}, ShuffleReplicas: len(c.shuf) > 0}
 	if c.hotRead {
 		// the hot tier lives in HotReadStores; HotStores holds a decoy whose answer would be visible
 		cfg.HotReadStores = &stores.Stores{Shards: tierHosts('r', c.hot)}
@@ -1483,8 +1588,14 @@ func expectedTop(lists [][]id2, rev bool, off, size int) []id2 {
 }
 
 func faultFree(c tcase) bool {
+	saved := curShuf
+	curShuf = c.shuf
+	defer func() { curShuf = saved }()
 	for _, s := range c.hot {
-		if len(s) == 0 || s[0].kind != 'r' || s[0].code != 'n' {
+		if len(s) == 0 {
+			return false
+		}
+		if first := s[permFor(len(s))[0]]; first.kind != 'r' || first.code != 'n' {
 			return false
 		}
 	}
@@ -1753,7 +1864,12 @@ func genCase(r *vh.RNG) tcase {
 		c.hint = 7
 	}
 	c.fetch = r.Chance(4, 5)
+	if r.Chance(1, 3) {
+		c.shuf = map[int][]int{2: r.Perm(2), 3: r.Perm(3)}
+	}
+	curShuf = c.shuf
 	c.wh, c.wc = pickWinner(c.hot, r), pickWinner(c.cold, r)
+	curShuf = nil
 	fbPct := []int{0, 20, 50}[r.Intn(3)]
 	hotTier := byte('h')
 	if c.hotRead {
@@ -1793,6 +1909,33 @@ func smallCases(r *vh.RNG, thorough bool) []tcase {
 	for _, tt := range [][2]int{{1, 0}, {2, 0}, {1, 1}, {3, 3}, {0, 0}} {
 		res = append(res, tcase{hot: [][]call{{{kind: 'r', code: 'n', total: tt[0], ids: dupIDs}}, {{kind: 'r', code: 'n', total: tt[1], ids: dupIDs}}},
 			size: 5, wh: -1, wc: -1, fb: map[string]string{}})
+	}
+	// ShuffleReplicas=true: one or two shards, 2-3 replicas holding their own documents, every order, every
+	// fail / lagging / answering script: a wrong source shows up as a wrong attribution and in the fetched bytes
+	for _, n := range []int{2, 3} {
+		for _, perm := range allPerms(n) {
+			nScripts := 1
+			for i := 0; i < n; i++ {
+				nScripts *= 3
+			}
+			for m := 0; m < nScripts; m++ {
+				var cs []call
+				for rpl, mm := 0, m; rpl < n; rpl, mm = rpl+1, mm/3 {
+					switch mm % 3 {
+					case 0:
+						cs = append(cs, call{kind: 'f'})
+					case 1: // lagging replica: misses the newest document
+						cs = append(cs, call{kind: 'r', code: 'n', total: 1, ids: []id2{{uint64(20 + rpl), 1}}})
+					default:
+						cs = append(cs, call{kind: 'r', code: 'n', total: 2, ids: []id2{{30, 1}, {uint64(20 + rpl), 1}}})
+					}
+				}
+				res = append(res, tcase{hot: [][]call{cs}, size: 4, fetch: true, wh: -1, wc: -1, fb: map[string]string{}, shuf: map[int][]int{n: perm}})
+				if m%2 == 1 {
+					res = append(res, tcase{hot: [][]call{cs, {{kind: 'r', code: 'n', total: 1, ids: []id2{{25, 2}}}}}, size: 4, hint: 7, fetch: true, wh: -1, wc: -1, fb: map[string]string{}, shuf: map[int][]int{n: perm}})
+				}
+			}
+		}
 	}
 	sa, sb := seqs(alphaA, 2), seqs(alphaB, 2)
 	for _, a := range sa[1:] {
@@ -1852,6 +1995,7 @@ func main() {
 	chAPI := vh.NewChannel("api", "real proxyapi Search handler (doSearch, processSearchErrors, makeProtoDocs) over the real Ingestor and the same fakes vs SV.ProxyRead.api: status error / refused / response with partial flag, IDs and document bytes; non-trivial = some replica failed/refused, a store reported errors, or a fetch stream misbehaved")
 	skipped := 0
 	for _, c := range cases {
+		useShuffle(c.shuf)
 		{
 			implX, endedOK, sentX, wx := runExport(c)
 			orderX, behavX, unkX := fetchTrace(wx)
@@ -1939,6 +2083,8 @@ func main() {
 	rep.AddChannel(chAPI, o.Driver)
 	rep.AddChannel(chExport, o.Driver)
 	rep.AddOracle(orc)
+
+	useShuffle(nil)
 
 	// ---- Fetch API
 	chFetch := vh.NewChannel("fetchapi", "real proxyapi Fetch handler (Ingestor.Documents: expandIDsBySources, FetchDocsStream, uniqueIDIterator; Id taken from the document) vs SV.ProxyApi.apiFetch on the recorded store deliveries; non-trivial = a store misbehaved or a document is missing")
@@ -2046,7 +2192,31 @@ func componentChannels(rep *vh.Report, o vh.Opts, rng *vh.RNG) {
 				nt = true
 			}
 		}
-		chShard.Add("shard "+fmtCalls(cs), runShard(cs), nt, fmt.Sprintf("replicas=%d", len(cs)))
+		chShard.Add("shard "+fmtCalls(cs), runShard(cs, nil), nt, fmt.Sprintf("replicas=%d", len(cs)))
+	}
+	// ShuffleReplicas=true: every order of 2 and 3 replicas, replicas answering with their own (distinct) IDs
+	for _, n := range []int{2, 3} {
+		var alpha [][]call
+		for r := 0; r < n; r++ {
+			alpha = append(alpha, []call{{kind: 'f'}, {kind: 'w'}, {kind: 'r', code: 'f'}, {kind: 'r', code: 'n', total: 10 + r, ids: []id2{{30, 1}, {uint64(20 + r), 1}}}})
+		}
+		var scripts [][]call
+		var gen func(pre []call)
+		gen = func(pre []call) {
+			if len(pre) == n {
+				scripts = append(scripts, append([]call{}, pre...))
+				return
+			}
+			for _, c := range alpha[len(pre)] {
+				gen(append(pre, c))
+			}
+		}
+		gen(nil)
+		for _, perm := range allPerms(n) {
+			for _, cs := range scripts {
+				chShard.Add(fmt.Sprintf("shardp %s %s", strings.ReplaceAll(vh.JoinInts(perm), ",", "."), fmtCalls(cs)), runShard(cs, perm), true, fmt.Sprintf("shuffled-replicas=%d", n))
+			}
+		}
 	}
 	rep.AddChannel(chShard, o.Driver)
 
@@ -2082,10 +2252,16 @@ func componentChannels(rep *vh.Report, o vh.Opts, rng *vh.RNG) {
 	}
 	for i := 0; i < o.Pick(300, 10000); i++ {
 		t := tagTotals(genTier(rng, 3, 3, false, 30, 10, false))
+		tag := fmt.Sprintf("shards=%d", len(t))
+		if i%3 == 2 { // ShuffleReplicas=true with a seeded order per replica count
+			useShuffle(map[int][]int{2: rng.Perm(2), 3: rng.Perm(3)})
+			tag += ",shuffled"
+		}
 		w := pickWinner(t, rng)
 		res, to := runStores(t, w)
 		timeouts += to
-		chStores.Add("stores "+fmtTier(t, arrivalOrder(t, w)), res, true, fmt.Sprintf("shards=%d", len(t)))
+		chStores.Add("stores "+fmtTier(t, arrivalOrder(t, w)), res, true, tag)
+		useShuffle(nil)
 	}
 	if timeouts > 0 {
 		rep.Note("stores: %d gated calls were released by the timeout instead of by context cancellation", timeouts)
